@@ -20,7 +20,8 @@ CONSTANTS
   SrvMax,    \* 0 = unlimited
   Ports,     \* configured passive ports
   UsePool,   \* TRUE: data_ports configured (Ports), FALSE: ephemeral ports
-  Idle, WaitData, SockT   \* timeouts in ms, 0 = off
+  Idle, WaitData, SockT,  \* timeouts in ms, 0 = off
+  KF         \* set of known-finding slugs whose deviating behaviour is admitted (always {} for the design)
 
 VARIABLES
   tree,      \* [d: set of directory paths (root <<>> implicit), f: [file paths -> content (Seq of bytes)]]
@@ -129,7 +130,7 @@ NoW == [v |-> "", p |-> NoPath, st |-> "", off |-> 0, sock |-> FALSE, fopen |-> 
 InitSess == [ph |-> "idle", ceof |-> FALSE, user |-> "", logged |-> FALSE, acq |-> FALSE,
              cwd |-> <<>>, rnfr |-> NoPath, rest |-> 0, ttype |-> "", lsn |-> 0, dc |-> "none", xd |-> 0,
              h |-> NoH, w |-> NoW, outq |-> <<>>, line |-> 0, din |-> <<>>, dineof |-> FALSE,
-             crash |-> FALSE, cdata |-> FALSE]
+             crash |-> FALSE, cdata |-> FALSE, ab |-> ""]
 
 TransferVerbs == {"retr", "stor", "appe"}
 ListVerbs == {"list", "mlsd"}
@@ -178,10 +179,16 @@ Connect(s, t) ==
 \* (idle timer) and resets the restart offset for every known non-transfer verb.
 SendLine(s, t, v, a, x, n) ==
   LET r == ss[s] IN
-  /\ r.ph = "open" /\ ~r.ceof /\ r.h = NoH /\ At(t)
-  /\ \E rst \in (IF v \in KnownVerbs \ TransferVerbs THEN {0}
-                 ELSE IF v \in TransferVerbs THEN {r.rest} ELSE {0, r.rest}) :
-       Upd(s, [r EXCEPT !.h = [NoH EXCEPT !.v = v, !.a = a, !.x = x, !.n = n], !.line = t, !.rest = rst])
+  /\ r.ph = "open" /\ ~r.ceof /\ At(t)
+  /\ \/ /\ r.h = NoH
+        /\ \E rst \in (IF v \in KnownVerbs \ TransferVerbs THEN {0}
+                       ELSE IF v \in TransferVerbs THEN {r.rest} ELSE {0, r.rest}) :
+             Upd(s, [r EXCEPT !.h = [NoH EXCEPT !.v = v, !.a = a, !.x = x, !.n = IF v \in TransferVerbs THEN r.rest ELSE n],
+                              !.line = t, !.rest = rst,
+                              !.ab = IF r.ab = "done" THEN "" ELSE @])
+     \/ \* ABOR arriving while the handler of the previous command is still running
+        /\ r.h # NoH /\ r.h.v # "abor" /\ v = "abor" /\ r.ab = ""
+        /\ Upd(s, [r EXCEPT !.ab = "pend", !.line = t, !.rest = 0])
   /\ UNCHANGED <<tree, uused, used, pool, table, srv>>
 
 \* the client opens a data connection to the session's passive listener
@@ -253,8 +260,10 @@ Verdicts(r) ==
               ELSE "550" : ok \in ps}
 
 Spawn(r, t) ==
-  LET parked == r.dc = "parked" IN
-  [NoW EXCEPT !.v = r.h.v, !.p = RPath(r), !.st = IF parked THEN "run" ELSE "wait", !.off = r.rest,
+  LET parked == r.dc = "parked"
+      aborted == r.ab # "" /\ "abor-before-150" \notin KF IN     \* an ABOR overtook the 150: the transfer must not run
+  [NoW EXCEPT !.v = r.h.v, !.p = RPath(r), !.st = IF aborted THEN "cancel" ELSE IF parked THEN "run" ELSE "wait",
+              !.off = r.h.n,
               !.sock = parked, !.had = parked,
               !.dl = IF parked THEN (IF SockT > 0 /\ r.h.v \in {"stor", "appe"} THEN t + SockT ELSE 0)
                      ELSE (IF WaitData > 0 THEN t + WaitData ELSE 0)]
@@ -319,7 +328,7 @@ Outcomes(r, t) ==
                        [] v = "mlst" -> same(<<"250">>, r)
                        [] v = "rnfr" -> same(<<"350">>, [r EXCEPT !.rnfr = RPath(r)])
                        [] OTHER -> same(<<"150">>, [r EXCEPT !.w = Spawn(r, t), !.rest = 0,
-                                                            !.dc = "none"])
+                                                            !.dc = "none", !.ab = ""])
                : c \in Verdicts(r)}
     [] OTHER -> {}
 
@@ -352,7 +361,7 @@ PreAbor(r) ==
 \* produce observable events before the 150 is written.
 PreSpawn(r, t) ==
   IF r.h.v \in WorkerVerbs /\ ~r.h.failed /\ r.w.v = "" /\ r.ph = "open" /\ "" \in Verdicts(r)
-    THEN [r EXCEPT !.h = NoH, !.w = Spawn(r, t), !.rest = 0, !.dc = "none", !.outq = @ \o <<"150">>]
+    THEN [r EXCEPT !.h = NoH, !.w = Spawn(r, t), !.rest = 0, !.dc = "none", !.outq = @ \o <<"150">>, !.ab = ""]
     ELSE r
 Pre(r, t) == PreAbor(PreSpawn(r, t))
 
@@ -383,6 +392,9 @@ ReplyEv(s, t, code) ==
              /\ Head(o.rep) = code
              /\ Upd(s, [o.r EXCEPT !.outq = Tail(o.rep)]) /\ uused' = o.uu /\ used' = o.us
         /\ UNCHANGED pool
+     \/ \* an ABOR that overtook a running handler is answered
+        /\ r.outq = <<>> /\ r.ab = "pend" /\ code = (IF r.logged THEN "226" ELSE "503")
+        /\ Upd(s, [r EXCEPT !.ab = IF r.h = NoH THEN "" ELSE "done"]) /\ UNCHANGED <<uused, used, pool>>
      \/ \* passive port pool exhausted
         /\ r.outq = <<>> /\ r.h.v \in {"pasv", "epsv"} /\ r.logged /\ r.lsn = 0 /\ r.h.pc \in {"", "retry"}
         /\ (r.h.v = "epsv" => r.h.x = "") /\ NoFree(r) /\ code = "421"
@@ -434,7 +446,10 @@ FsQuery(s, t, p, res) ==
       byW(r) == r.w.v # "" /\ r.w.st = "run" /\ r.w.sock
   IN
   /\ r0.ph = "open" /\ r0.logged /\ At(t) /\ Confined(r0, p)
-  /\ \/ byH(r0) /\ Upd(s, IF res = "fault" THEN [r0 EXCEPT !.h.failed = TRUE] ELSE r0)
+  /\ \/ /\ byH(r0)
+        /\ IF res # "fault" THEN Upd(s, r0)
+           ELSE \E rst \in (IF r0.h.v \in TransferVerbs THEN {r0.rest, 0} ELSE {r0.rest}) :
+                  Upd(s, [r0 EXCEPT !.h.failed = TRUE, !.rest = rst])
      \/ byW(r1) /\ Upd(s, IF res = "fault" THEN [r1 EXCEPT !.w.st = "failed"] ELSE r1)
   /\ UNCHANGED <<tree, uused, used, pool, table, srv>>
 
@@ -468,7 +483,7 @@ FsFile(s, t, op, p, res, mode, off, data) ==
             /\ w.fopen /\ UNCHANGED tree
             /\ IF w.st = "run" /\ res # "fault" /\ Moved(r)
                  THEN Upd(s, [r EXCEPT !.w.fopen = FALSE, !.w.fdone = TRUE])
-               ELSE IF w.st = "run" /\ res = "fault"
+               ELSE IF w.st \in {"run", "cancel"} /\ res = "fault"
                  THEN Upd(s, [r EXCEPT !.w.fopen = FALSE, !.w.st = "failed"])
                ELSE IF TimedOut(r, t)
                  THEN Upd(s, [r EXCEPT !.w.fopen = FALSE, !.w.st = "dying", !.crash = TRUE])
@@ -574,6 +589,7 @@ CtlClose(s, t) ==
 Settled(s, gated) ==
   LET r == PreAbor(ss[s]) IN
   /\ (r.outq = <<>> \/ s \in gated)
+  /\ (r.ab # "pend" \/ s \in gated)
   /\ r.xd = 0
   /\ (r.h.v # "" => s \in gated \/ r.h.pc = "try")
   /\ (r.w.v # "" => \/ r.w.st = "wait"
